@@ -21,6 +21,7 @@ UNIT = {
             'requires': ['old(env).mon@.owed is None'],
             'ensures': [
                 'final(env).mon@.round_done', 'final(env).mon@.unannounced_command == old(env).mon@.unannounced_command', 'final(env).mon@.commands == old(env).mon@.commands',
+                'final(env).mon@.command_after_divert == old(env).mon@.command_after_divert', 'r is Continue ==> !final(env).mon@.last_trap_diverted',
                 # every caught signal handed out with a command action had exactly that command run for exactly that signal,
                 # once, before the next one was handed out; nothing was run that was not owed; nothing is run inside another
                 # trap action
@@ -31,6 +32,7 @@ UNIT = {
             ],
             'loops': {0: {'invariant': [
                 'env.mon@.round_done', 'env.mon@.unannounced_command == old(env).mon@.unannounced_command', 'env.mon@.commands == old(env).mon@.commands',
+                'env.mon@.command_after_divert == old(env).mon@.command_after_divert', '!env.mon@.last_trap_diverted',
                 'env.mon@.wrong == old(env).mon@.wrong', 'env.mon@.owed is None', '!env.mon@.in_trap', 'env.mon@.in_trap == old(env).mon@.in_trap',
                 'env.mon@.runs - old(env).mon@.runs == env.mon@.taken_commands - old(env).mon@.taken_commands',
             ]}}}),
@@ -40,6 +42,7 @@ UNIT = {
                 # "at the next command boundary": a command is executed only right after a round of trap actions for the signals
                 # caught so far, and not at all if such an action diverts
                 'final(env).mon@.unannounced_command == old(env).mon@.unannounced_command',
+                'final(env).mon@.command_after_divert == old(env).mon@.command_after_divert',
                 'final(env).mon@.wrong == old(env).mon@.wrong',
                 'final(env).mon@.commands <= old(env).mon@.commands + 1',
             ]}),
